@@ -228,6 +228,28 @@ def _is_numeric_cast_type(dtype):
     )
 
 
+def _hash_keys(keys):
+    """Express datetime-like key columns in nanoseconds before they are hashed
+
+    pandas hashes the integer representation of datetime64 / timedelta64 values,
+    which depends on their resolution, but the same instants in different
+    resolutions are equal merge keys and have to land in the same partition.
+    (The int64 product wraps around for instants that nanoseconds can't
+    represent; those can't be equal to a value of a finer resolution anyway.)
+    """
+    factors = {"s": 10**9, "ms": 10**6, "us": 10**3}
+    for i, dtype in enumerate(keys.dtypes):
+        unit = getattr(dtype, "unit", None)  # DatetimeTZDtype
+        if isinstance(dtype, np.dtype) and dtype.kind in "mM":
+            unit = np.datetime_data(dtype)[0]
+        if unit in factors:
+            ints = keys.iloc[:, i].array.view("i8")
+            nanos = np.where(ints == np.iinfo("i8").min, ints, ints * factors[unit])
+            keys = keys.copy(deep=False)
+            keys.isetitem(i, nanos)
+    return keys
+
+
 def _temporary_label(columns, label):
     # Label of a helper column that does not clash with a column of the user
     while label in columns:
@@ -782,7 +804,7 @@ class AssignPartitioningIndex(Blockwise):
             index = [index] if isinstance(index, str) else list(index)
             index = partitioning_index(df[index], npartitions, cast_dtype)
         else:
-            index = partitioning_index(index, npartitions, cast_dtype)
+            index = partitioning_index(_hash_keys(index), npartitions, cast_dtype)
         if df.ndim == 1:
             df = df.to_frame()
         return df.assign(**{name: index})
